@@ -881,6 +881,10 @@ def tensor_attr(I, t, name):
         return v.rank
     if name == "T":
         return _permuted(I, t, list(range(v.rank))[::-1])
+    if name == "mT":
+        if v.rank < 2:
+            raise IN.RaisedEx("RuntimeError", "tensor.mT is only supported on matrices or batches of matrices")
+        return _m_transpose(I, t, -1, -2)
     if name == "data":
         return _m_detach(I, t)
     if name == "grad_fn":
@@ -1122,6 +1126,21 @@ def t_nonzero(I, t, as_tuple=False, **kw):
     return tshape.where_rows(I, t)
 
 
+def _amm(I, a, dim, keepdim, kind):
+    """amin / amax: the values of min / max over `dim` (all axes when dim is None)"""
+    if isinstance(dim, (list, tuple)):
+        if len(dim) != 1:
+            raise Unsupported("amin/amax over several axes")
+        dim = dim[0]
+    return _reduce(I, a, dim, keepdim, kind)
+
+
+def _t_flip_fn(I, a, dims):
+    if not isinstance(dims, (list, tuple)):
+        raise _IN().RaisedEx("TypeError", "flip(): argument 'dims' must be tuple of ints")
+    return Tensor(tshape.flip(I, a, dims))
+
+
 def t_vstack(I, ts):
     ts = I.iterate(ts)
     if any(lift(x).rank < 2 for x in ts):
@@ -1197,6 +1216,9 @@ TENSOR_METHODS = {
     "expand_as": lambda I, t, other: Tensor(tshape.expand(I, t.val, [d.size() for d in lift(other).shape])),
     "narrow": t_narrow,
     "select": _m_select,
+    "flip": lambda I, t, *dims, **kw: Tensor(tshape.flip(I, t, kw["dims"] if "dims" in kw else (dims[0] if len(dims) == 1 and isinstance(dims[0], (list, tuple)) else list(dims)))),
+    "amin": lambda I, a, dim=None, keepdim=False: _amm(I, a, dim, keepdim, "min"),
+    "amax": lambda I, a, dim=None, keepdim=False: _amm(I, a, dim, keepdim, "max"),
     "new_zeros": _m_new_filled(0),
     "new_ones": _m_new_filled(1),
     "new_full": _m_new_full,
@@ -1341,6 +1363,8 @@ def install(I):
         "any": B("any", t_any),
         "cat": B("cat", t_cat),
         "vstack": B("vstack", t_vstack),
+        "amin": B("amin", lambda I2, a, dim=None, keepdim=False: _amm(I2, a, dim, keepdim, "min")),
+        "amax": B("amax", lambda I2, a, dim=None, keepdim=False: _amm(I2, a, dim, keepdim, "max")),
         "hstack": B("hstack", t_hstack),
         "nonzero": B("nonzero", t_nonzero),
         "select": B("select", _m_select),
@@ -1350,7 +1374,7 @@ def install(I):
         "reshape": B("reshape", lambda I2, a, shape: _m_reshape(I2, a if isinstance(a, Tensor) else Tensor(lift(a)), shape)),
         "permute": B("permute", lambda I2, a, order: _m_permute(I2, a if isinstance(a, Tensor) else Tensor(lift(a)), order)),
         "transpose": B("transpose", lambda I2, a, d0, d1: _m_transpose(I2, a if isinstance(a, Tensor) else Tensor(lift(a)), d0, d1)),
-        "flip": B("flip", lambda I2, a, dims: Tensor(tshape.flip(I2, a, dims))),
+        "flip": B("flip", lambda I2, a, dims: _t_flip_fn(I2, a, dims)),
         "unsqueeze": B("unsqueeze", lambda I2, a, dim: _m_unsqueeze(I2, a if isinstance(a, Tensor) else Tensor(lift(a)), dim)),
         "squeeze": B("squeeze", lambda I2, a, dim=None: _m_squeeze(I2, a if isinstance(a, Tensor) else Tensor(lift(a)), dim)),
         "repeat_interleave": B("repeat_interleave", t_repeat_interleave),
